@@ -119,13 +119,17 @@ def run_unit(unit_path, repo=None, rlimit=None, seed=None, threads=4, twins=Fals
         spans = d.get('spans', [])
         labels = []
         prim_fn = None
+        pointed = [sp for sp in spans if (sp.get('label') or '').startswith(('failed this', 'failed precondition', 'assertion failed'))]
         for sp in spans:
-            if not sp.get('is_primary') and (sp.get('label') or '').startswith('at the end of') or (sp.get('label') or '').startswith('at this exit'):
+            lab = sp.get('label') or ''
+            if pointed and sp not in pointed:
+                pass
+            elif not sp.get('is_primary') and lab.startswith(('at the end of', 'at this exit', 'at this loop exit')):
                 pass
             else:
-              for ln in range(sp['line_start'], sp['line_end'] + 1):
-                if ln in g.line_label:
-                    labels.append(g.line_label[ln])
+                for ln in range(sp['line_start'], sp['line_end'] + 1):
+                    if ln in g.line_label:
+                        labels.append(g.line_label[ln])
             if sp.get('is_primary'):
                 prim_fn = g.line_fn.get(sp['line_start'])
         if prim_fn is None and spans:
